@@ -806,6 +806,7 @@ func run(c *lib.Ctx) {
 	// name with its last two letters swapped, with a letter dropped, and with a
 	// letter doubled), then check the order. A load that fails must not have
 	// changed the order in which later loads execute their directives.
+	listAtStart := append([]string(nil), casket.ValidDirectives("http")...)
 	typos := 0
 	for _, d := range casket.ValidDirectives("http") {
 		if len(d) < 3 {
@@ -827,6 +828,19 @@ func run(c *lib.Ctx) {
 	}
 	if part == "" || part == "precedence" {
 		m.precedence()
+		// ... and loads that SUCCEED must not have changed it either: the same
+		// process goes on loading configurations (reloads, further instances)
+		now := casket.ValidDirectives("http")
+		c.Eval(1)
+		if strings.Join(now, " ") != strings.Join(listAtStart, " ") {
+			c.Violation("C09/list-order/changed-by-loads", "the directive list of the http server type is not what it was before this process loaded configurations: later loads execute their directives in another order (or no longer know some of them)",
+				map[string]interface{}{"before": listAtStart, "after": now})
+		} else {
+			c.Count("directive_list_unchanged_after_successful_loads", 1)
+		}
+		if part == "" {
+			checkList(c)
+		}
 	}
 	m.be.ln.Close()
 	if part != "" && part != "metamorphic" {
